@@ -263,11 +263,13 @@ func runC16(c *Ctx) {
 	r.Rule("R16.3", "request trigger: onEventFrame returns early unless the message id is 0 and its Autopilot field is 3 (ArduPilot); the rate-limit key contains the channel, the system id and the component id of the sender; "+
 		"a request is made iff the key is absent or now − last ≥ streamRequestPeriod (30 s), and the table is updated on exactly those paths, under the mutex", 3)
 	early := map[string]bool{}
+	earlyPass := map[string]edge{} // filter condition → the edge on which the filter lets the frame pass
 	for _, iff := range ifsIn(oef) {
 		for v, idx := range condVariants(iff.Cond) {
 			tb := iff.Block().Succs[idx]
 			if ret, ok := tb.Instrs[len(tb.Instrs)-1].(*ssa.Return); ok && len(ret.Results) == 0 && len(tb.Instrs) == 1 {
 				early[v] = true
+				earlyPass[v] = edge{iff.Block(), iff.Block().Succs[1-idx]}
 			}
 		}
 	}
@@ -310,6 +312,23 @@ func runC16(c *Ctx) {
 		}
 		if f != nil && len(callsNamed(f, "(sync.Mutex).Lock")) > 0 {
 			lim, limCall = f, call
+		}
+	}
+	// the filter comes first: the rate-limit table is consulted (and updated) only for frames that passed both tests —
+	// a non-ArduPilot heartbeat must not use up the sender's 30 s slot
+	if lim != nil {
+		if lc, ok := limCall.(*ssa.Call); ok {
+			var notBefore []string
+			for v, e := range earlyPass {
+				isID := v == "((message.Message).GetID((gomavlib.EventFrame).Message(arg0)) != 0)"
+				isAP := strings.Contains(v, "\"Autopilot\"") && strings.HasSuffix(v, " != 3)")
+				if (isID || isAP) && !edgeMustPass(oef, e, lc.Block()) {
+					notBefore = append(notBefore, v)
+				}
+			}
+			sort.Strings(notBefore)
+			r.Check(len(notBefore) == 0, "R16.3", "onEventFrame filter before rate limit", c.Pos(lc.Pos()), "the rate-limit section runs only for ArduPilot heartbeats",
+				"the rate-limit table is consulted / updated before the filter "+strings.Join(notBefore, ", ")+" has been passed: a heartbeat that triggers nothing (other autopilot, other message) uses up the sender's 30 s slot and a following ArduPilot heartbeat gets no requests")
 		}
 	}
 	decision := map[string]bool{} // renderings of the condition value that means "request"
